@@ -547,6 +547,22 @@ class Gen:
             spends.append(s)
         return spends
 
+    def sc_amount(self, amount=None):
+        """one spend of a given amount (boundary sweep), optionally re-creating the amount and signing over it"""
+        r = self.r
+        amt = amount if amount is not None else self.amount()
+        s = self.new_spend(parent=r.bytes(32), amount=amt)
+        s["budget"] = []
+        k = r.below(4)
+        if k == 0:
+            self.add_raw(s, "CREATE_COIN", [r.choice(self.phs), canon(amt)])
+        elif k == 1:
+            self.add_raw(s, "ASSERT_MY_AMOUNT", [canon(amt)])
+        elif k == 2:
+            self.add_raw(s, r.choice(["AGG_SIG_AMOUNT", "AGG_SIG_PUZZLE_AMOUNT", "AGG_SIG_PARENT_AMOUNT"]), [self.key(), r.choice(self.msgs)])
+            s["keys"].append(s["conds"][-1][1][0])
+        return [s]
+
     def sc_malformed(self):
         r = self.r
         spends = self.sc_multi()
